@@ -59,6 +59,8 @@ class K:
     def sm(a):
         return a
 '''
+PKG_INIT = "class Top:\n    pass\n"
+PKG_SUB = "class Deep:\n    pass\n\nclass Deeper(Deep):\n    pass\n"
 CFG = '''
 from monkeytype.config import DefaultConfig
 class _C3(DefaultConfig):
@@ -80,7 +82,12 @@ def make_values(rnd, fx, k):
     """values for one position: atoms, fixture/harness classes, containers; for k > 0 also small str-keyed dicts of
     builtin values (shapes that stay clear of C11's recorded rendering findings)"""
     from harness import fxclasses as hx
-    atoms = [1, "s", None, 2.5, True, b"x", fx.P(), fx.Q(), fx.R(), hx.A(), hx.B(), hx.D(), fx.X(), fx.B1(), fx.C1()]
+    import c14pkg
+    import c14pkg.sub
+    # classes of a package and of one of its sub-modules in the same signature: the rendered names must not depend on
+    # the order in which module prefixes are stripped
+    atoms = [1, "s", None, 2.5, True, b"x", fx.P(), fx.Q(), fx.R(), hx.A(), hx.B(), hx.D(), fx.X(), fx.B1(), fx.C1(),
+             c14pkg.Top(), c14pkg.sub.Deep(), c14pkg.sub.Deeper(), c14pkg.Top(), c14pkg.sub.Deep()]
 
     def v(depth):
         c = rnd.random()
@@ -158,13 +165,19 @@ def presentations(rnd, traces):
     out.append(("batched", [sp[:cut[0]], sp[cut[0]:cut[-1]], sp[cut[-1]:] + sp[:1]]))
     rev = list(reversed(traces))
     out.append(("reversed_other_process", [rev]))
+    # the same trace flushed in many separate batches before the others: with the row limit of the query just above
+    # the number of DISTINCT rows the answer must still contain every distinct row
+    first = traces[0]
+    out.append(("many_duplicate_batches_limited", [[first]] * 12 + [list(traces)]))
     return out
 
 
-def run_cli(work, db, k, rewrite, hashseed, junk):
+def run_cli(work, db, k, rewrite, hashseed, junk, limit=None):
     env = common.sub_env({"MT_DB_PATH": db, "PYTHONHASHSEED": str(hashseed)})
     env["PYTHONPATH"] = work + os.pathsep + env["PYTHONPATH"]
     argv = [common.PY, "-c", CHILD, str(junk), "-c", "c14cfg:CFG3" if k else "c14cfg:CFG0"]
+    if limit is not None:
+        argv += ["--limit", str(limit)]
     if not rewrite:
         argv.append("--disable-type-rewriting")
     argv += ["stub", "c14fx"]
@@ -208,6 +221,11 @@ def run(ctx):
         f.write(FIXTURE)
     with open(os.path.join(work, "c14cfg.py"), "w") as f:
         f.write(CFG)
+    os.makedirs(os.path.join(work, "c14pkg"), exist_ok=True)
+    with open(os.path.join(work, "c14pkg", "__init__.py"), "w") as f:
+        f.write(PKG_INIT)
+    with open(os.path.join(work, "c14pkg", "sub.py"), "w") as f:
+        f.write(PKG_SUB)
     sys.path.insert(0, work)
     try:
         import importlib
@@ -218,6 +236,11 @@ def run(ctx):
         jobs, scen = [], []
         for i in range(n_scen):
             sc = build_scenario(rnd, fx, i)
+            keys = set()
+            for t in sc["traces"]:
+                r = CallTraceRow.from_trace(t)
+                keys.add((r.module, r.qualname, r.arg_types, r.return_type, r.yield_type))
+            sc["limit"] = len(keys) + 2          # just above the number of distinct rows; every presentation uses it
             scen.append(sc)
             for j, (name, batches) in enumerate(presentations(rnd, sc["traces"])):
                 db = os.path.join(work, f"s{i}_{j}.sqlite3")
@@ -226,7 +249,7 @@ def run(ctx):
                         SQLiteStore.make_store(db).add(b)
                 jobs.append((i, name, db, rnd.choice([0, 1, 7, 12345]) if j else 0, rnd.choice([0, 1000, 50000]) if j else 0))
         with ThreadPoolExecutor(max_workers=common.NCPU) as ex:
-            outs = list(ex.map(lambda jb: run_cli(work, jb[2], scen[jb[0]]["k"], scen[jb[0]]["rewrite"], jb[3], jb[4]), jobs))
+            outs = list(ex.map(lambda jb: run_cli(work, jb[2], scen[jb[0]]["k"], scen[jb[0]]["rewrite"], jb[3], jb[4], scen[jb[0]]["limit"]), jobs))
         cases, terms = [], []
         dist = collections.Counter()
         refs = {}
